@@ -44,6 +44,9 @@ PathOk(r) ==
                  LET c == r.cn[i] IN
                  /\ c.ans = ConfirmNonexistence(res, c.k)
                  /\ NonexistenceStatementTrue(kv, c.k, c.ans)
+       /\ (res.t = "Ok" /\ "cvx" \in DOMAIN r) =>
+            \A i \in 1..Len(r.cvx) :
+                 r.cvx[i].ans = (IF InScope(res, r.cvx[i].k) THEN "false" ELSE "OutOfScope")
        /\ r.src = "store" =>
             /\ res.t = "Ok"
             /\ ConfirmNonexistence(res, r.key) = ExpectNonexist(kv, r.key)
@@ -66,6 +69,7 @@ UpdateOk(r) ==
 
 QueryTruth(kv, q, a) ==
     IF q.q = "value" THEN ValueStatementTrue(kv, q.k, q.v, a)
+    ELSE IF q.q = "valuex" THEN a # "true"
     ELSE NonexistenceStatementTrue(kv, q.k, a)
 
 MultiHonestOk(r) ==
@@ -76,7 +80,9 @@ MultiHonestOk(r) ==
        /\ \A i \in 1..Len(r.queries) :
             LET q == r.queries[i]
                 e == IF ~covered(q.k) THEN "OutOfScope"
-                     ELSE IF q.q = "value" THEN ExpectValue(kv, q.k, q.v) ELSE ExpectNonexist(kv, q.k)
+                     ELSE IF q.q = "value" THEN ExpectValue(kv, q.k, q.v)
+                     ELSE IF q.q = "valuex" THEN "false"          \* another key's value hash is never this key's value
+                     ELSE ExpectNonexist(kv, q.k)
             IN q.ans = e /\ q.ansIdx = e
        /\ "upd" \in DOMAIN r =>
             /\ r.upd.multiRes = "Ok" /\ r.upd.pathRes = "Ok"
